@@ -256,7 +256,8 @@ func (c *AbstractTokenizer) ReadNextToken() *Token {
 
 	// Adds an Eof if option is not set.
 	if token == nil && c.LastTokenType != Eof && !c.skipEof {
-		token = NewToken(Eof, "", line, column)
+		// The end-of-input token sits one column past the last character
+		token = NewToken(Eof, "", c.Scanner.Line(), c.Scanner.Column()+1)
 	}
 
 	// Assigns the last token type
